@@ -164,3 +164,44 @@ pub fn expand_each(sources: &[String]) -> Vec<Result<Expanded, String>> {
         }
     }
 }
+
+/// Type-check a batch of crate-root sources with the real macro (`cargo check`); each is wrapped into
+/// `pub mod case_k { … }`.  `Err` carries rustc's error lines.
+pub fn check_batch(sources: &[String]) -> Result<(), String> {
+    let d = ensure_crate();
+    let mut lib = String::from("#![allow(warnings)]\n");
+    for (k, s) in sources.iter().enumerate() {
+        lib += &format!("pub mod case_{k} {{\n{s}\n}}\n");
+    }
+    std::fs::write(d.join("src/lib.rs"), &lib).unwrap();
+    let o = Command::new("cargo")
+        .args(["check", "--offline", "--lib", "--message-format=short"])
+        .env("CARGO_TARGET_DIR", d.join("target"))
+        .env_remove("RUSTFLAGS")
+        .env("CARGO_ENCODED_RUSTFLAGS", "")
+        .current_dir(&d)
+        .output()
+        .map_err(|e| format!("cannot run cargo: {e}"))?;
+    if o.status.success() {
+        Ok(())
+    } else {
+        let e = String::from_utf8_lossy(&o.stderr);
+        Err(e.lines().filter(|l| l.contains("error")).take(8).collect::<Vec<_>>().join(" | "))
+    }
+}
+
+/// Like `check_batch`, bisecting a failing batch so that each source gets its own verdict.
+pub fn check_each(sources: &[String]) -> Vec<Result<(), String>> {
+    match check_batch(sources) {
+        Ok(()) => sources.iter().map(|_| Ok(())).collect(),
+        Err(e) => {
+            if sources.len() == 1 {
+                return vec![Err(e)];
+            }
+            let mid = sources.len() / 2;
+            let mut a = check_each(&sources[..mid]);
+            a.extend(check_each(&sources[mid..]));
+            a
+        }
+    }
+}
